@@ -44,14 +44,25 @@ class C07(Prop):
                      "k:raised", "token", "cache:shrunk", "cache:replace-or-evict"]
                     + [f"act:{a}" for a in ("SUCCESS", "BLOCKED", "FAILURE", "SKIPPED", "ERROR")])
     assumptions = [
-        "agents return an ActionProtein whose action_type is a string, or raise; they do not call back into the loop",
-        "truncated md5 (cache key) and sha256 (token binding) digests are treated as injective on prompts "
-        "(the harness uses distinct prompts with distinct digests)",
-        "on_block / on_permit callbacks are None; single caller (no concurrent run() calls)",
+        "agents return an ActionProtein whose action_type is a str and whose payload is str()-able, or raise an Exception "
+        "(a malformed return value or a BaseException makes run() raise outside its handler after the agents were charged: "
+        "nothing comes back, nothing passes; not modelled)",
+        "requests may overlap at agent-call granularity (an agent re-entering the loop, a second thread while an agent is "
+        "busy): the phases look-up / executor call / assessor call / finish are atomic and the verdicts a finish phase "
+        "carries are chosen by the environment; finer thread interleavings inside a phase are not modelled",
+        "truncated md5 (cache key, 64 bit) and sha256 (token binding) digests are arbitrary functions; history forms speak "
+        "of 'a request with the same cache key', per-request forms assume the key injective on the prompts used (false "
+        "against adversarially chosen prompts: c07_unblocked_needs_injective_key_witness); the harness uses distinct "
+        "prompts with distinct digests",
+        "on_block / on_permit callbacks are None; callers do not mutate returned LoopResult objects (the cache stores the "
+        "very object it returned)",
+        "public attributes may be re-assigned on the live loop (set op); re-assigning gate_logic is the trigger of the open "
+        "finding C07-gate-reassigned-cache",
         "'assessor permits' = verdict PERMIT; 'executor permits' = verdict EXECUTE or PERMIT (DESIGN.md C07)",
     ]
     trusted_modelled = ["modelled, not verified: CoherentFeedForwardLoop.run/_apply_gate_logic/_check_cache/"
-                        "_cache_result as Operon.Cffl.run; hashlib digests as arbitrary injective functions"]
+                        "_cache_result as Operon.Cffl.run and its phases (lookup, finish, agentRaised); hashlib digests "
+                        "as arbitrary functions"]
 
     def setup(self, ctx):
         self.impl = cffl.Impl()
